@@ -1097,6 +1097,8 @@ impl HandlerRunner {
                 } else { k.parse().unwrap_or(usize::MAX) };
                 let Some(d) = self.wire.get(k).cloned() else { return self.finish(None, None, 1, out, stats) };
                 let src = match rest.first() {
+                    // `20`: another port on the host the datagram originally came from
+                    Some(&"20") if (1..=3).contains(&d.from_idx) => node_addr(20 + d.from_idx),
                     Some(a) => node_addr(a.parse().unwrap_or(9)),
                     None => d.src,
                 };
@@ -1354,10 +1356,18 @@ impl HandlerRunner {
                 };
                 let body = Request { id: rid_bytes(900_000 + self.wire.len() as u64), body: body_of(get(5).max(1)) }.encode();
                 let nonce: [u8; 12] = r.bytes(12).try_into().unwrap();
-                let Some((bytes, keys, _eph)) = hf::craft_handshake(senr.node_id(), &skey, &denr, &aad, rec, nonce, &body) else { return false };
+                let crafted = match raw_sig {
+                    // an id-signature that is not the output of any signing operation
+                    Some(sig) => {
+                        stats.bump("h.craft.handshake-malformed-signature");
+                        hf::craft_handshake_raw_sig(senr.node_id(), &denr, &aad, rec, nonce, &body, sig)
+                    }
+                    None => hf::craft_handshake(senr.node_id(), &skey, &denr, &aad, rec, nonce, &body),
+                };
+                let Some((bytes, keys, _eph)) = crafted else { return false };
                 // the attacker knows the keys it derived; what it seals is recorded as sealed by it
                 // whoever holds the signing key is the sealing party
-                self.ledger.sealed.entry((keys.initiator_key, body)).or_insert(get(1));
+                self.ledger.sealed.entry((keys.initiator_key, body)).or_insert(signer_idx);
                 stats.bump("h.craft.handshake-built");
                 self.wire.push(Datagram { from_idx: ATTACKER, src: node_addr(ATTACKER), dst: node_addr(get(2)), dst_id: denr.node_id(), bytes });
                 true
@@ -1442,6 +1452,30 @@ pub fn gen_case(rng: &mut Rng, tier: &str, profile: &str, stats: &mut Stats) -> 
         ops.push(format!("hresp {} next auto", y));
         emitted += 5;
     }
+    if (profile == "C03" && rng.chance(1, 4)) || rng.chance(1, 16) {
+        // directed prefix: a request has done its handshake and is unanswered; the session is
+        // re-keyed by a challenge to a second request (the first is replayed under the new keys);
+        // then a WHOAREYOU arrives for the replayed first request
+        stats.bump("gen.cases.directed-rekey-then-second-whoareyou");
+        let x = rng.range(1, n);
+        let y = other(rng, x);
+        ops.push(format!("hreq {} {} enr {} 1", x, y, rid)); rid += 1;
+        ops.push("hdel next".into());
+        ops.push(format!("hwru {} next known", y));
+        ops.push("hdel next".into());
+        if rng.chance(1, 2) { ops.push("hdel next".into()); } else { ops.push("hdel skip".into()); }
+        ops.push(format!("hreq {} {} enr {} {}", x, y, rid, rng.range(1, 4))); rid += 1;
+        if rng.chance(1, 2) { ops.push("hdel skip".into()); }
+        ops.push(format!("hcraft whoareyou {} r 0", x));
+        ops.push("hdel last".into());
+        ops.push(format!("hcraft whoareyou {} r 0", x));
+        ops.push("hdel last".into());
+        if rng.chance(1, 2) {
+            ops.push(format!("hcraft whoareyou {} r 0", x));
+            ops.push("hdel last".into());
+        }
+        emitted += 9;
+    }
     if rng.chance(1, 8) {
         // directed prefix: dial without a record; the peer answers the request but not the internal
         // record request, which times out; a new request goes out and stays unanswered; then the
@@ -1510,6 +1544,8 @@ pub fn gen_case(rng: &mut Rng, tier: &str, profile: &str, stats: &mut Stats) -> 
                 3 => { ops.push(format!("hmut {} extend {}", k, rng.below(40))); ops.push("hdel last".into()); }
                 4 => { ops.push(format!("hmut {} splice {}", k, rng.below(emitted))); ops.push("hdel last".into()); }
                 5 => ops.push(format!("hdel {} {} {}", k, rng.range(1, 9), rng.range(1, n))),
+                // the same bytes from another port of the host they came from
+                6 if rng.chance(1, 2) => ops.push(format!("hdel {} 20", if rng.chance(1, 2) { "last".to_string() } else { k.to_string() })),
                 _ => ops.push(format!("hdel {} {}", k, rng.range(1, 9))),
             }
             emitted += 1;
@@ -1531,7 +1567,7 @@ pub fn gen_case(rng: &mut Rng, tier: &str, profile: &str, stats: &mut Stats) -> 
                     let k = rng.below(emitted);
                     match rng.below(6) {
                         0 => ops.push(format!("hdel {} {}", k, rng.range(1, 9))),
-                        1 => ops.push(format!("hdel {} {}", k, 20 + rng.range(1, n))), // another port of a node's host
+                        1 => ops.push(format!("hdel {} {}", k, if rng.chance(1, 2) { 20 } else { 20 + rng.range(1, n) })), // another port of a node's host
                         _ => ops.push(format!("hdel {}", k)),
                     }
                     emitted += 1;
